@@ -326,6 +326,14 @@ func SchemaCases(seed int64, nRandom int, withMatrix bool) []Case {
 			out = append(out, Case{ID: id, Family: "schema", Spec: d.Root, Flags: Flags{Client: true}, Safe: true, Label: map[string]string{"set": id}})
 		}
 	}
+	for _, c := range SchemaFixedCases() {
+		// the two allOf shapes with an additionalProperties member last decode and
+		// (since the separator fix) encode correctly: part of the family for every consumer
+		if strings.Contains(c.ID, "-addl-") {
+			c.Safe = true
+			out = append(out, c)
+		}
+	}
 	rng := rand.New(rand.NewSource(seed*977 + 3))
 	for i := 0; i < nRandom; i++ {
 		d := NewDoc("schemas")
